@@ -5,6 +5,8 @@ import (
 	"context"
 	"errors"
 	"fmt"
+	"net"
+	"os"
 	"runtime"
 	"strings"
 	"sync/atomic"
@@ -38,6 +40,9 @@ type CtxPlan struct {
 	// NoDeadlines (scenarios in which the hello arrives): the transport's
 	// Set*Deadline calls fail with ErrUnsupported and have no effect.
 	NoDeadlines bool `json:"no_deadlines,omitempty"`
+	// SecondConn: while this connection's context ends another connection of the
+	// process is parked in its own NewConn.
+	SecondConn bool `json:"second_conn,omitempty"`
 	// HRRLater: after the return (and the end of the context) the backend
 	// answers with a HelloRetryRequest before the later I/O.
 	HRRLater bool   `json:"hrr_later,omitempty"`
@@ -265,6 +270,46 @@ func executeCtx(t *testing.T, prop string, seed uint64, p *CtxPlan) *core.Result
 				cancel()
 				continue
 			}
+			// another client of the same process is still waiting in its own NewConn
+			// while this connection's context ends
+			var second func()
+			if p.SecondConn && nerr == nil {
+				cc2, fc2 := w.Pipe("c"+name+"b", "f"+name+"b", simnet.LinkCfg{Seg: simnet.SegWhole}, simnet.LinkCfg{Seg: simnet.SegWhole})
+				ctx2, cancel2 := context.WithCancel(context.Background())
+				done2 := make(chan struct{})
+				var conn2 *ech.Conn
+				var err2 error
+				var pk2 string
+				go func() {
+					defer close(done2)
+					if p, m, s := core.Guard(func() { conn2, err2 = ech.NewConn(ctx2, fc2, keyOptions(b.keys)...) }); p {
+						pk2 = s + ": " + normMsg(m)
+					}
+				}()
+				synctest.Wait() // parked in its read
+				res.Probe("second_connection_waiting_in_newconn")
+				second = func() {
+					cc2.Write(rec)
+					<-done2
+					cancel2()
+					switch {
+					case pk2 != "":
+						res.Fail(prop, "panic", pk2, "NewConn of a second connection")
+					case err2 != nil:
+						res.Fail(prop, "ctx", "NewConn of a second connection fails although its own context is alive: "+normErr(err2), "the first connection's context ended meanwhile (%s)", p.After)
+					default:
+						for _, d := range fc2.DeadlineCalls() {
+							if !d.T.IsZero() {
+								res.Fail(prop, "ctx", "deadline set on a connection whose context never ended", "%s(%v) on the second connection", d.Kind, d.T.Sub(w.T0))
+								break
+							}
+						}
+						_ = conn2
+					}
+					fc2.Close()
+					cc2.Close()
+				}
+			}
 			switch p.After {
 			case "cancel":
 				cancel()
@@ -356,6 +401,22 @@ func executeCtx(t *testing.T, prop string, seed uint64, p *CtxPlan) *core.Result
 			time.Sleep(time.Hour)
 			synctest.Wait()
 			deadlinesUntouched("after the later I/O")
+			if second != nil {
+				second()
+			}
+			// a deadline of the owner's own, long after the context ended: it
+			// expires like any read deadline (a timeout, nothing else)
+			if !p.NoDeadlines {
+				conn.SetReadDeadline(time.Now().Add(time.Second))
+				var derr error
+				core.Guard(func() { _, derr = conn.Read(make([]byte, 16)) })
+				// (crypto/tls and net/http test the error with a plain type assertion)
+				ne, isNet := derr.(net.Error)
+				if derr == nil || !errors.Is(derr, os.ErrDeadlineExceeded) || !isNet || !ne.Timeout() || errors.Is(derr, context.Canceled) || errors.Is(derr, context.DeadlineExceeded) {
+					res.Fail(prop, "ctx", "a read deadline set by the owner after the context ended is not reported as a timeout", "Read returned %v", derr)
+				}
+				conn.SetReadDeadline(time.Time{})
+			}
 			cancel()
 			fc.Close()
 			cc.Close()
@@ -403,6 +464,7 @@ func genC10(seed uint64, idx int) *Plan {
 	c.Frags = 1 + r.IntN(6)
 	c.LatUs = []int{0, 10, 1000, 50000}[r.IntN(4)]
 	c.HRRLater = (idx/32)%2 == 1
+	c.SecondConn = idx%3 == 1 && (idx/4)%8 < 6
 	c.NoDeadlines = (idx/64)%2 == 1 && (idx/4)%8 < 6
 	// the action grid
 	switch (idx / 4) % 8 {
